@@ -62,7 +62,7 @@ pub fn check_identity<T: Sc>(out: &mut CaseOut, stream: &str, case: u64, spec: &
     }
 }
 
-fn check_best_fit<T: Sc>(out: &mut CaseOut, stream: &str, case: u64, spec: &ProblemSpec, fit: &AnyFit<T>) {
+pub fn check_best_fit<T: Sc>(out: &mut CaseOut, stream: &str, case: u64, spec: &ProblemSpec, fit: &AnyFit<T>) {
     let alpha: Vec<f64> = fit.nonlinear_parameters().iter().map(|v| v.w()).collect();
     let pp: Vec<f64> = fit.problem_params().iter().map(|v| v.w()).collect();
     out.evals += 1;
